@@ -604,6 +604,36 @@ func c08(c *Ctx) {
 				}
 				cx, okx := bo.X.(*ssa.Call)
 				cy, oky := bo.Y.(*ssa.Call)
+				if okx && oky && core.CalleeID(cx) != enodeLogDist && core.CalleeID(cy) != enodeLogDist {
+					// both sides call one local helper `func(n) int { return LogDist(n.ID(), target) }`
+					// (a closure kept in a local, possibly captured by the comparator)
+					hx, hy := localFuncOf(cx), localFuncOf(cy)
+					if hx != nil && hx == hy && len(hx.Params) == 1 {
+						rets := core.Returns(hx)
+						if len(rets) == 1 {
+							if lc, ok := rets[0].Results[0].(*ssa.Call); ok && core.CalleeID(lc) == enodeLogDist &&
+								core.Derives(lc.Call.Args[0], func(v ssa.Value) bool { return v == ssa.Value(hx.Params[0]) }, core.DeriveOpts{ThroughCalls: true}) &&
+								!core.Derives(lc.Call.Args[1], func(v ssa.Value) bool { return v == ssa.Value(hx.Params[0]) }, core.DeriveOpts{ThroughCalls: true}) {
+								idxOfArg := func(call *ssa.Call) ssa.Value {
+									var idx ssa.Value
+									core.Derives(call.Call.Args[len(call.Call.Args)-1], func(v ssa.Value) bool {
+										if ia, ok := v.(*ssa.IndexAddr); ok {
+											idx = ia.Index
+										}
+										return false
+									}, core.DeriveOpts{})
+									return idx
+								}
+								ix, iy := idxOfArg(cx), idxOfArg(cy)
+								i0, j0 := ssa.Value(less.Params[0]), ssa.Value(less.Params[1])
+								if (bo.Op == token.LSS && ix == i0 && iy == j0) || (bo.Op == token.GTR && ix == j0 && iy == i0) {
+									okCmp = true
+								}
+							}
+						}
+					}
+					continue
+				}
 				if !okx || !oky || core.CalleeID(cx) != enodeLogDist || core.CalleeID(cy) != enodeLogDist {
 					continue
 				}
@@ -1463,4 +1493,59 @@ func listLeaves(v ssa.Value) []ssa.Value {
 	}
 	rec(v)
 	return out
+}
+
+// localFuncOf: the function literal behind a call of a closure kept in a local variable: called
+// directly (the callee is the MakeClosure or a load of the cell it was stored in) or from
+// another closure that captured the cell.
+func localFuncOf(c *ssa.Call) *ssa.Function {
+	if f := core.StaticCalleeFn(c); f != nil {
+		return f
+	}
+	v := c.Call.Value
+	var cell ssa.Value
+	if u, ok := v.(*ssa.UnOp); ok && u.Op == token.MUL {
+		cell = u.X
+	}
+	if cell == nil {
+		return nil
+	}
+	if fv, ok := cell.(*ssa.FreeVar); ok {
+		cl := fv.Parent()
+		if cl == nil || cl.Parent() == nil {
+			return nil
+		}
+		idx := -1
+		for i, x := range cl.FreeVars {
+			if x == fv {
+				idx = i
+			}
+		}
+		cell = nil
+		for _, b := range cl.Parent().Blocks {
+			for _, in := range b.Instrs {
+				if mc, ok := in.(*ssa.MakeClosure); ok && mc.Fn == ssa.Value(cl) && idx >= 0 && idx < len(mc.Bindings) {
+					cell = mc.Bindings[idx]
+				}
+			}
+		}
+	}
+	al, ok := cell.(*ssa.Alloc)
+	if !ok || al.Referrers() == nil {
+		return nil
+	}
+	var fn *ssa.Function
+	n := 0
+	for _, rf := range *al.Referrers() {
+		if st, ok := rf.(*ssa.Store); ok && st.Addr == ssa.Value(al) {
+			n++
+			if mc, ok := st.Val.(*ssa.MakeClosure); ok {
+				fn, _ = mc.Fn.(*ssa.Function)
+			}
+		}
+	}
+	if n != 1 {
+		return nil
+	}
+	return fn
 }
